@@ -364,6 +364,9 @@ pub fn sweep_c07(tier: &str, seed: u64) -> (usize, Vec<String>) {
         let mut rows: Vec<Vec<f32>> = (0..nrows).map(|_| (0..32).map(|_| { let x = rng.below(2000) as f32 / 16.0; if neg { -1.0 - x } else { x - 60.0 } }).collect()).collect();
         if nrows > 0 && rep % 3 == 0 { let (r, c) = (rng.below(nrows), rep % 32); rows[r][c] = if neg { -0.5 } else { 200.0 }; }
         if nrows > 0 && rep % 5 == 0 { let (r, c) = (rng.below(nrows), rng.below(32)); rows[r][c] = f32::NEG_INFINITY; }
+        // no finite cell at all (every window overlaps a wildcard): the largest stored value is -inf itself; and a single, very low, finite cell
+        if rep + 1 == reps { for r in rows.iter_mut() { for x in r.iter_mut() { *x = f32::NEG_INFINITY; } } }
+        if rep + 2 == reps && nrows > 0 { for r in rows.iter_mut() { for x in r.iter_mut() { *x = f32::NEG_INFINITY; } } let (r, c) = (rng.below(nrows), rng.below(32)); rows[r][c] = -3.0e38; }
         let sc = scores_from(&rows);
         let best = rows.iter().flatten().cloned().fold(f32::NEG_INFINITY, f32::max);
         let t = rows.iter().flatten().nth(rng.below(nrows.max(1) * 32)).cloned().unwrap_or(0.0);
@@ -643,6 +646,12 @@ pub fn sweep_c09(tier: &str, seed: u64) -> (usize, Vec<String>) {
                     if !(g == wants || (g - wants).abs() < 1e-4) { f.push(fail("pwm_to_scoring", format!("background {:?}: score[{}][{}] = {} expected {}", bgv, i, k, g, wants), case.clone())); }
                 } }
                 if w2.background().frequencies() != &bgv[..] || s2.background().frequencies() != &bgv[..] { f.push(fail("pwm_to_weight", "the matrix does not carry the background it was built with".into(), case.clone())); }
+                // "every window without wildcard scores between the reported minimum and maximum": also windows made of symbols whose background is
+                // zero (their cells are -inf, so the reported minimum must be -inf too)
+                let (lo2, hi2) = (s2.min_score(), s2.max_score());
+                let mut wins: Vec<Vec<Nucleotide>> = (0..4).map(|k| vec![Dna::symbols()[k]; m]).collect();
+                for t in 0..4 { wins.push(rand_syms::<Dna>(&mut Rng::new(rep as u64 * 13 + t), m, false)); }
+                for w_ in &wins { let sc: f32 = (0..m).map(|j| s2.matrix()[j][w_[j].as_index()]).sum(); if !(sc >= lo2 - 1e-3 && sc <= hi2 + 1e-3) { f.push(fail("pwm_min_max_score", format!("background {:?}: window {} scores {} outside [{}, {}]", bgv, text::<Dna>(w_), sc, lo2, hi2), case.clone())); break; } }
             }
             // per-symbol pseudocounts (incl. weight on the wildcard)
             {
@@ -656,7 +665,14 @@ pub fn sweep_c09(tier: &str, seed: u64) -> (usize, Vec<String>) {
                 let mut raw = DenseMatrix::<u32, <Dna as Alphabet>::K>::new(m);
                 let mut r2 = Rng::new(rep as u64 * 31 + 5);
                 for i in 0..m { for k in 0..5 { raw[i][k] = if k == 4 && rep % 2 == 0 { 0 } else { r2.below(9) as u32 + if k == 0 { 1 } else { 0 } }; } }
+                // a position nobody counted (an all-zero row; with no pseudocount its frequencies are 0/0): the OTHER rows are unaffected
+                if rep % 4 == 1 && m >= 2 { let z = rep % m; for k in 0..5 { raw[z][k] = 0; } }
                 if let Ok(cm2) = CountMatrix::<Dna>::new(raw.clone()) {
+                    for pseudo2 in [0.0f32, 0.5] {
+                        // C10: reverse complement commutes with counts -> frequencies on raw tables too (NaN cells compare equal to NaN cells)
+                        let (a, b) = (cm2.to_freq(pseudo2).reverse_complement(), cm2.reverse_complement().to_freq(pseudo2));
+                        'cmp: for i in 0..m { for k in 0..5 { let (x, y) = (a.matrix()[i][k], b.matrix()[i][k]); if !(feq(x, y) || (x - y).abs() < 1e-6) { f.push(fail("pwm_freq_rc", format!("raw table {:?} pseudo {}: rc(to_freq)[{}][{}] = {} but to_freq(rc) = {}", (0..m).map(|i| raw[i].to_vec()).collect::<Vec<_>>(), pseudo2, i, k, x, y), case.clone())); break 'cmp; } } }
+                    }
                     for pseudo2 in [0.0f32, 0.5] {
                         let fm3 = cm2.to_freq(pseudo2);
                         for i in 0..m { let tot: f32 = (0..5).map(|k| raw[i][k] as f32 + if k < 4 { pseudo2 } else { 0.0 }).sum(); for k in 0..5 { let want = (raw[i][k] as f32 + if k < 4 { pseudo2 } else { 0.0 }) / tot; if (fm3.matrix()[i][k] - want).abs() > 1e-6 { f.push(fail("pwm_to_freq", format!("raw table {:?} pseudo {}: freq[{}][{}] = {} expected {}", (0..m).map(|i| raw[i].to_vec()).collect::<Vec<_>>(), pseudo2, i, k, fm3.matrix()[i][k], want), case.clone())); } } }
@@ -725,6 +741,24 @@ pub fn sweep_c09(tier: &str, seed: u64) -> (usize, Vec<String>) {
             let l = m + 5;
             let s = rand_syms::<Dna>(&mut Rng::new(rep as u64 + 99), l, true);
             let rcs: Vec<Nucleotide> = s.iter().rev().map(|x| Dna::symbols()[comp[x.as_index()]]).collect();
+            // ... and through the library's own single-position scorer, on striped sequences of several rows carrying NO / fewer / exactly the
+            // look-ahead rows the motif needs (forward matrix on the sequence, reverse-complement matrix on the reverse-complement sequence)
+            {
+                let l2 = 40 + rep % 60;
+                let s_ = rand_syms::<Dna>(&mut Rng::new(rep as u64 + 199), l2.max(m), true);
+                let l2 = s_.len();
+                let rcs_: Vec<Nucleotide> = s_.iter().rev().map(|x| Dna::symbols()[comp[x.as_index()]]).collect();
+                for hist in 0..3 {
+                    let mut fw: StripedSequence<Dna, U32> = Pipeline::<Dna, _>::generic().stripe(&s_[..]);
+                    let mut bw: StripedSequence<Dna, U32> = Pipeline::<Dna, _>::generic().stripe(&rcs_[..]);
+                    match hist { 1 => { if m > 2 { let w_ = 1 + (rep % (m - 2)); fw.configure_wrap(w_); bw.configure_wrap(w_); } } 2 => { fw.configure(&smn); bw.configure(&direct); } _ => {} }
+                    for i in 0..=l2 - m {
+                        let (a, b) = (smn.score_position(&fw, i), direct.score_position(&bw, l2 - m - i));
+                        let want: f32 = (0..m).map(|j| smn.matrix()[j][s_[i + j].as_index()]).sum();
+                        if !((a - b).abs() <= 1e-3 || a == b) || !((a - want).abs() <= 1e-3 || a == want) { f.push(fail("pwm_scoring_rc", format!("score_position (history {}, wrap {}): forward position {} scores {}, its mirror {} on the reverse complement scores {}, definition {}", hist, fw.wrap(), i, a, l2 - m - i, b, want), case.clone())); break; }
+                    }
+                }
+            }
             for i in 0..=l - m { let a: f32 = (0..m).map(|j| smn.matrix()[j][s[i + j].as_index()]).sum(); let b: f32 = (0..m).map(|j| direct.matrix()[j][rcs[l - m - i + j].as_index()]).sum(); if (a - b).abs() > 1e-3 { f.push(fail("pwm_scoring_rc", format!("strand identity broken at position {}: {} vs {}", i, a, b), case.clone())); break; } }
             f
         }));
@@ -750,7 +784,7 @@ pub fn sweep_c19(tier: &str, seed: u64) -> (usize, Vec<String>) {
             let op = rng.below(7);
             let r = catch_unwind(AssertUnwindSafe(|| { match op {
                 0 => { let k = rng.below(9); m.resize(k); model.resize(k, vec![<$t>::default(); cols]); trace.push(format!("resize({})", k)); }
-                1 => { if !model.is_empty() { let (i, j) = (rng.below(model.len()), rng.below(cols)); let v: $t = $mk(rng.below(200)); m[i][j] = v; model[i][j] = v; trace.push(format!("write({},{})", i, j)); } }
+                1 => { if !model.is_empty() { let (i, j) = (rng.below(model.len()), rng.below(cols)); let v: $t = $mk(rng.below(200)); if step % 2 == 0 { m[i][j] = v; } else { m[lightmotif::dense::MatrixCoordinates::new(i, j)] = v; } model[i][j] = v; trace.push(format!("write({},{})", i, j)); } }
                 2 => { let v: $t = $mk(rng.below(200)); m.fill(v); for r in model.iter_mut() { for x in r.iter_mut() { *x = v; } } trace.push("fill".into()); }
                 3 => { let k = rng.below(6); m = DenseMatrix::<$t, $c>::new(k); model = vec![vec![<$t>::default(); cols]; k]; trace.push(format!("new({})", k)); }
                 4 => { let c2 = m.clone(); if c2 != m { panic!("clone != original"); } let mut c3 = m.clone(); if !model.is_empty() { let i = rng.below(model.len()); c3[i][0] = $mk(201); if c3 == m && model[i][0] != $mk(201) { panic!("equality ignores a differing cell"); } let mut c4 = m.clone(); c4.resize(model.len() - 1); if c4 == m { panic!("equality ignores the row count (shrunk clone)"); } } let mut c5 = m.clone(); c5.resize(model.len() + 1); if c5 == m { panic!("equality ignores the row count (grown clone)"); }
@@ -789,6 +823,7 @@ pub fn sweep_c19(tier: &str, seed: u64) -> (usize, Vec<String>) {
             if r.is_err() { fails.push(fail("dense", format!("panic at {} ({:?})", panic_loc(), step), case)); break; }
             let bad = m.rows() != model.len() || m.columns() != cols
                 || (0..model.len()).any(|i| m[i] != model[i][..])
+                || (0..model.len()).any(|i| (0..cols).any(|j| m[lightmotif::dense::MatrixCoordinates::new(i, j)] != model[i][j]))
                 || m.iter().count() != model.len() || m.iter().zip(model.iter()).any(|(a, b)| a != &b[..])
                 || m.iter().rev().zip(model.iter().rev()).any(|(a, b)| a != &b[..])
                 || m.stride() < cols || (m.stride() * std::mem::size_of::<$t>()) % 32 != 0
@@ -799,6 +834,9 @@ pub fn sweep_c19(tier: &str, seed: u64) -> (usize, Vec<String>) {
     model!(u8, U1, |x: usize| x as u8); model!(u8, U32, |x: usize| x as u8); model!(u8, U43, |x: usize| x as u8);
     model!(u32, U5, |x: usize| x as u32); model!(u32, U21, |x: usize| x as u32); model!(f32, U7, |x: usize| x as f32); model!(f32, U16, |x: usize| x as f32);
     model!(i64, U5, |x: usize| x as i64); model!(i64, U32, |x: usize| x as i64);
+    // element types whose default is NOT the all-zero bit pattern (the symbol types the striped sequences store: N = 4, X = 20)
+    model!(Nucleotide, U5, |x: usize| Dna::symbols()[x % 5]); model!(Nucleotide, U32, |x: usize| Dna::symbols()[x % 5]);
+    model!(lightmotif::abc::AminoAcid, U21, |x: usize| lightmotif::abc::Protein::symbols()[x % 21]);
     (n, fails)
 }
 
